@@ -5,7 +5,7 @@
    - the per-queue invariants of SyncTestQ.v (on top of RInv of QueueProofs.v),
    - the saved-state cells (session side and game side),
    - the checksum history. *)
-From GGRS Require Import Base Consts Queue QueueProofs Sync SyncTest SyncTestSpec SyncTestQ.
+From GGRS Require Import Base Consts Queue QueueProofs Sync SyncTest SyncTestSpec SyncTestQ Builder BuilderSpec BuilderProofs.
 From Coq Require Import ZifyBool ZifyNat ZifyN.
 Ltac Zify.zify_post_hook ::= Z.div_mod_to_equations.
 Open Scope Z_scope.
@@ -1296,3 +1296,90 @@ Qed.
 End Noisy.
 
 End Run.
+
+(* ================= the theorems ================= *)
+Theorem st_no_false_alarm : forall predict ck np w d k ins,
+  1 <= np -> 0 <= d < w -> 0 <= k -> k + d + 2 <= INPUT_QUEUE_LENGTH ->
+  st_deterministic ck ->
+  Forall (fun vs => Z.of_nat (length vs) = np) ins ->
+  exists s0 s g,
+    st_new np w d k = Ok s0 /\
+    st_run predict ck s0 (st_game0 w) ins =
+      RunOk s g (map (st_expected_requests np d k ins) (st_zrange 0 (length ins))) /\
+    s_current (st_sync s) = Z.of_nat (length ins) /\
+    sg_tl g = map (st_expected np ins k) (st_zrange 0 (length ins)) /\
+    Forall (fun e => snd e = st_expected np ins k (fst e)) (sg_log g).
+Proof.
+  intros predict ck np w d k ins Hnp Hd Hk Hcap Hdet Hins.
+  rewrite <- QLEN_is in Hcap.
+  destruct (st_s0_inv predict ck np w d k ins Hd (st_G ck np k ins)) as (A & B & C & D & E).
+  destruct (st_run_det predict ck np w d k ins Hnp Hd Hk Hcap Hins Hdet ins 0 (st_s0 np w d k) (st_game0 w)
+              ltac:(lia) eq_refl A B C D E) as (s & g & Erun & Fa & G).
+  exists (st_s0 np w d k), s, g.
+  split; [apply (st_new_ok predict ck); exact Hnp|]. split; [exact Erun|].
+  destruct Fa as [Fb _]. split; [|split].
+  - rewrite (sy_cur _ _ _ _ _ _ _ _ (fb_sy _ _ _ _ _ _ _ Fb)). lia.
+  - rewrite (gi_tl _ _ _ _ _ _ _ G). unfold st_TL. rewrite Z.add_0_l, Nat2Z.id. reflexivity.
+  - exact (gi_log _ _ _ _ _ _ _ G).
+Qed.
+
+Theorem st_detection : forall predict ck np w d k ins F,
+  1 <= np -> 2 <= d < w -> 0 <= k -> k + d + 2 <= INPUT_QUEUE_LENGTH -> 2 <= F ->
+  st_noisy_at ck F ->
+  Forall (fun vs => Z.of_nat (length vs) = np) ins ->
+  Z.max F d + 3 <= Z.of_nat (length ins) ->
+  exists s0 s,
+    st_new np w d k = Ok s0 /\
+    st_run predict ck s0 (st_game0 w) ins =
+      RunStop (map (st_expected_requests np d k ins) (st_zrange 0 (Z.to_nat (Z.max F d + 2))))
+              (CallMismatch s (Z.max F d + 2) [F]).
+Proof.
+  intros predict ck np w d k ins F Hnp Hd Hk Hcap HF Hnoisy Hins Hlen.
+  rewrite <- QLEN_is in Hcap.
+  assert (Hd' : 0 <= d < w) by lia.
+  destruct (st_run_noisy predict ck np w d k ins Hnp Hd' Hk Hcap Hins F HF (proj1 Hd) Hnoisy
+              (Z.to_nat (Z.max F d + 2)) 0 (st_s0 np w d k) (st_game0 w) ins) as (s & E).
+  - lia.
+  - unfold st_M. lia.
+  - reflexivity.
+  - unfold st_M. lia.
+  - apply (IB_init predict); assumption.
+  - exists (st_s0 np w d k), s. split; [apply (st_new_ok predict ck); exact Hnp|]. exact E.
+Qed.
+
+(* beyond the bound on the delay the session panics in the input queue: the bound is needed *)
+Lemma st_delay_bound_needed :
+  st_run (fun x => x) (fun _ _ => None) (st_s0 1 2 1 126) (st_game0 2) [[1]; [1]; [1]] =
+    RunStop [[RSave 0; RAdvance [(0, Confirmed)]]; [RSave 1; RAdvance [(0, Confirmed)]]] CallPanic.
+Proof. vm_compute. reflexivity. Qed.
+
+(* (c) the builder side: a SyncTestSession only exists for check_distance < max_prediction, without
+   sparse saving, with at least one player *)
+Lemma st_last_set_nonneg : forall (sel : call -> option Z) cs dflt,
+  0 <= dflt -> (forall c v, In c cs -> sel c = Some v -> 0 <= v) -> 0 <= last_set sel dflt cs.
+Proof.
+  intros sel. induction cs as [|c r IH]; intros dflt Hd H; cbn [last_set]; [exact Hd|].
+  apply IH.
+  - destruct (sel c) eqn:E; [apply (H c z (or_introl eq_refl) E)|exact Hd].
+  - intros c0 v Hin. apply H. right. exact Hin.
+Qed.
+
+Theorem st_builder_gate : 1 <= DEFAULT_PLAYERS -> forall cs n np w cd dl, Forall usize_call cs ->
+  run_calls cs FSyncTest = (n, Ok (SSyncTest np w cd dl)) ->
+  1 <= np /\ 0 <= cd < w /\ 0 <= dl /\ sparse_of cs = false /\
+  np = np_of cs /\ w = window_of cs /\ cd = check_dist_of cs /\ dl = delay_of cs.
+Proof.
+  intros Hdp cs n np w cd dl Hu Hrun.
+  pose proof (other_sessions_shape Hdp cs FSyncTest n _ Hu Hrun) as (_ & A1 & A2 & A3 & A4 & A5 & A6).
+  destruct (builder_spec Hdp cs FSyncTest Hu) as (_ & Hv & _).
+  assert (Hval : valid_calls cs FSyncTest) by (apply Hv; rewrite Hrun; eexists; reflexivity).
+  destruct Hval as (_ & _ & Hsp).
+  rewrite Forall_forall in Hu.
+  assert (0 <= cd).
+  { subst cd. apply st_last_set_nonneg; [vm_compute; discriminate|].
+    intros c v Hin Hs. specialize (Hu c Hin). destruct c; try discriminate. inversion Hs; subst. exact Hu. }
+  assert (0 <= dl).
+  { subst dl. apply st_last_set_nonneg; [vm_compute; discriminate|].
+    intros c v Hin Hs. specialize (Hu c Hin). destruct c; try discriminate. inversion Hs; subst. exact Hu. }
+  repeat split; auto; lia.
+Qed.
